@@ -42,7 +42,7 @@ def quiet(fn, *a, **k):
         return fn(*a, **k)
 
 
-def gen_case(rng, coarse=False):
+def gen_case(rng, coarse=False, ctx=None):
     band = int(rng.integers(0, 5))
     edge = rng.random() < 0.2
     if edge:
@@ -55,7 +55,7 @@ def gen_case(rng, coarse=False):
         # neighbouring samples right at the +-5 % band of criterion iv (1.05 above, 1/0.95 = 1.0526 for the sample below)
         ratio = float(rng.choice([1.047, 1.0495, 1.0505, 1.0515, 1.0522, 1.0529, 1.055]))
     nlo, nhi = int(rng.integers(2, 30)), int(rng.integers(2, 30))
-    dense = (not coarse) and rng.random() < 0.006
+    dense = (not coarse) and (bool(rng.random() < 0.006) or (ctx is not None and gen.every_nth(ctx, 0.006)))
     if dense:
         # an un-resampled curve: thousands of closely spaced samples, the highest peak only a few samples wide
         ratio = float(rng.choice([1.0004, 1.0008]))
@@ -156,7 +156,7 @@ def matches(real, want):
 
 def fam_verdicts(ctx, rng, coarse=False):
     from hvsrpy import sesame
-    meta, f, mean, std, sr = gen_case(rng, coarse)
+    meta, f, mean, std, sr = gen_case(rng, coarse, ctx)
     ctx.describe(**meta, search_range=list(sr), n=int(f.size), frequency=f, mean_curve=mean)
     opts = model_options(f, mean, std, sr, meta["lw"], meta["nw"], meta["fn_std"])
     if not opts:
